@@ -9,7 +9,7 @@ Not decided: address sets of data-dependent Python control flow (JAX tracing fix
 from ..gfi import distribution, static_lang
 from ..gfi.common import run_for
 from ..rules import is_call, is_mcall
-from ..terms import C, Evaluator, G, P, is_t, mk_elem, show
+from ..terms import C, Evaluator, G, P, is_t, mk_elem, mk_proj, show
 
 CM = "core/generative/choice_map.py"
 
@@ -29,7 +29,10 @@ def run(chk, prog):
     if ok:
         e = t[3][2]
         el = mk_elem(P("pairs"))
-        ok = is_call(e, "entry") and e[2][0] == el[1][1] if False else is_call(e, "entry")
+        pair = el
+        addr_t = mk_proj(pair, 0)
+        norm = ("phi", ("isinst", addr_t, "tuple"), addr_t, ("tuple", (addr_t,)))
+        ok = is_call(e, "entry") and len(e[2]) == 2 and e[2][0] == mk_proj(pair, 1) and e[2][1] == ("star", norm)
     chk.require(ok, "CHM-NEST", "ChoiceMap.from_mapping", "every pair contributes an entry at its (tuple) address", derived=show(t)[:200], expected="acc |= ChoiceMap.entry(v, *addr) for every pair", where=W("from_mapping"))
     r = ev.eval_fn(c.methods["extend"], c.module, c)
     t = r.ret
